@@ -51,13 +51,18 @@ def case_assembly(rng, tier):
     for p, N in zip(ps, loads):
         p.Nxx, p.Nyy, p.Nxy = N
         p.add_force(float(rng.uniform(0, p.a)), float(rng.uniform(0, p.b)), *[float(v) for v in rng.normal(size=3)])
+        if rng.random() < 0.6:
+            p.add_force(float(rng.uniform(0, p.a)), float(rng.uniform(0, p.b)), *[float(v) for v in rng.normal(size=3)], cte=False)
     forces = [list(p.forces[0]) for p in ps]
+    forces_inc = [[list(f) for f in p.forces_inc] for p in ps]
+    inc = float(rng.uniform(0.1, 1.9))
+    c.desc['inc'] = inc
     try:
         size = ass.get_size()
         K = ass.calc_k0(silent=True).toarray()
         G = ass.calc_kG0(silent=True).toarray()
         M = ass.calc_kM(silent=True).toarray()
-        F = np.asarray(ass.calc_fext(silent=True))
+        F = np.asarray(ass.calc_fext(inc=inc, silent=True))
         KC = ass.get_k0_conn().toarray()
     except Exception as e:
         return c.reject('%s in assembly: %s' % (type(e).__name__, str(e)[:100]))
@@ -74,16 +79,18 @@ def case_assembly(rng, tier):
         q = gen.build_panel(d)
         q.Nxx, q.Nyy, q.Nxy = loads[i]
         q.add_force(*forces[i])
+        for f in forces_inc[i]:
+            q.add_force(*f, cte=False)
         r0 = ps[i].row_start
         sl = slice(r0, r0 + own[i])
         Ks[sl, sl] += q.calc_k0(silent=True).toarray()
         Gs[sl, sl] += q.calc_kG0(silent=True).toarray()
         Ms[sl, sl] += q.calc_kM(silent=True).toarray()
-        Fs[sl] += np.asarray(q.calc_fext(silent=True))
+        Fs[sl] += np.asarray(q.calc_fext(inc=inc, silent=True))
     c.judge('assembled k0 = sum of placed stand-alone k0 + connection matrix', rel(K, Ks + KC), 1e-12)
     c.judge('assembled kG0 = sum of placed stand-alone kG0', rel(G, Gs), 1e-12)
     c.judge('assembled kM = sum of placed stand-alone kM', rel(M, Ms), 1e-12)
-    c.judge('assembled fext = placed stand-alone load vectors', rel(F, Fs), 1e-12)
+    c.judge('assembled fext = placed stand-alone load vectors (constant and incrementable forces, load factor != 1)', rel(F, Fs), 1e-12)
     c.nontrivial = len(set((d['m'], d['n']) for d in ad['panels'])) > 1
     return c
 
